@@ -2,7 +2,10 @@ use crate::report::Report;
 use std::sync::Arc;
 
 pub mod c10;
+pub mod c12;
 pub mod c16;
+#[cfg(feature = "hashable")]
+pub mod c18;
 pub mod c17;
 
 pub struct Entry {
@@ -15,8 +18,11 @@ pub struct Entry {
 pub fn lookup(id: &str) -> Option<Entry> {
     Some(match id {
         "C10" => Entry { id: "C10", run: c10::run, replay: c10::replay },
+        "C12" => Entry { id: "C12", run: c12::run, replay: c12::replay },
         "C16" => Entry { id: "C16", run: c16::run, replay: c16::replay },
         "C17" => Entry { id: "C17", run: c17::run, replay: c17::replay },
+        #[cfg(feature = "hashable")]
+        "C18" => Entry { id: "C18", run: c18::run, replay: c18::replay },
         _ => return None,
     })
 }
